@@ -611,10 +611,10 @@ class BoundStatement(Statement):
         # this is fail-fast for clarity pre-v4. When v4 can be assumed,
         # the error will be better reported when UNSET_VALUE is implicitly added.
         if proto_version < 4 and self.prepared_statement.routing_key_indexes and \
-           value_len < len(self.prepared_statement.routing_key_indexes):
+           value_len <= max(self.prepared_statement.routing_key_indexes):
             raise ValueError(
                 "Too few arguments provided to bind() (got %d, required %d for routing key)" %
-                (value_len, len(self.prepared_statement.routing_key_indexes)))
+                (value_len, max(self.prepared_statement.routing_key_indexes) + 1))
 
         self.raw_values = values
         self.values = []
